@@ -53,6 +53,10 @@
 (*          <<pre-digest, other item>> (last item is no seal), "no-pre"    *)
 (*          <<other item, seal>>, "only-seal" <<seal>>, "bad-pre" the      *)
 (*          pre-runtime digest does not decode as a BABE claim.            *)
+(*          ("bad-pre" = empty data or an unknown claim-kind byte; a       *)
+(*          TRUNCATED claim is not used: with a decoder that zero-fills    *)
+(*          short input it simply is a claim for another slot, and whether *)
+(*          short input is refused is the subject of C12)                  *)
 (* Deliberately left out (not pinned down by the statement): a pre-digest  *)
 (* that is not the first item, SecondarySlots values above 2, engine ids,  *)
 (* equivocation, disabled authorities.                                     *)
